@@ -514,6 +514,122 @@ fn oracle_transfer() -> bool {
     r.done()
 }
 
+// ------------------------------------------------------------------------------------------------ fault injection (C20)
+use std::sync::atomic::{AtomicI64, AtomicU64, Ordering};
+use std::sync::Arc;
+#[derive(Debug)]
+struct FaultState { countdown: AtomicI64, calls: AtomicU64 }
+/// MemoryFS whose k-th trait call fails with an I/O error (k counted from 0; negative = never)
+#[derive(Debug)]
+struct FaultFS { inner: MemoryFS, st: Arc<FaultState> }
+impl FaultFS {
+    fn tick(&self) -> VfsResult<()> {
+        self.st.calls.fetch_add(1, Ordering::SeqCst);
+        let c = self.st.countdown.fetch_sub(1, Ordering::SeqCst);
+        if c == 0 { Err(VfsErrorKind::IoError(std::io::Error::new(std::io::ErrorKind::Other, "injected fault")).into()) } else { Ok(()) }
+    }
+}
+impl vfs::FileSystem for FaultFS {
+    fn read_dir(&self, p: &str) -> VfsResult<Box<dyn Iterator<Item = String> + Send>> { self.tick()?; self.inner.read_dir(p) }
+    fn create_dir(&self, p: &str) -> VfsResult<()> { self.tick()?; self.inner.create_dir(p) }
+    fn open_file(&self, p: &str) -> VfsResult<Box<dyn vfs::SeekAndRead + Send>> { self.tick()?; self.inner.open_file(p) }
+    fn create_file(&self, p: &str) -> VfsResult<Box<dyn vfs::SeekAndWrite + Send>> { self.tick()?; self.inner.create_file(p) }
+    fn append_file(&self, p: &str) -> VfsResult<Box<dyn vfs::SeekAndWrite + Send>> { self.tick()?; self.inner.append_file(p) }
+    fn metadata(&self, p: &str) -> VfsResult<vfs::VfsMetadata> { self.tick()?; self.inner.metadata(p) }
+    fn exists(&self, p: &str) -> VfsResult<bool> { self.tick()?; self.inner.exists(p) }
+    fn remove_file(&self, p: &str) -> VfsResult<()> { self.tick()?; self.inner.remove_file(p) }
+    fn remove_dir(&self, p: &str) -> VfsResult<()> { self.tick()?; self.inner.remove_dir(p) }
+}
+fn faulty() -> (VfsPath, Arc<FaultState>) {
+    let st = Arc::new(FaultState { countdown: AtomicI64::new(-1), calls: AtomicU64::new(0) });
+    (VfsPath::new(FaultFS { inner: MemoryFS::new(), st: st.clone() }), st)
+}
+fn put(root: &VfsPath, p: &str, c: Option<&[u8]>) { let q = root.join(p).unwrap(); match c { None => q.create_dir_all().unwrap(), Some(b) => { q.parent().create_dir_all().unwrap(); q.create_file().unwrap().write_all(b).unwrap(); } } }
+fn listing(root: &VfsPath) -> Vec<(String, Option<Vec<u8>>)> { snapshot(root).into_iter().map(|(p, c, _, _)| (p, c)).collect() }
+/// run `scenario(k)` for every fault position k; the scenario returns Some(description) when success was reported without the full effect
+fn oracle_faults() -> bool {
+    let mut r = Report::new("faults");
+    type Scn = (&'static str, Box<dyn Fn(i64) -> (u64, Option<String>)>);
+    let tree: Vec<(&str, Option<&[u8]>)> = vec![("d/x", Some(b"x")), ("d/s/y", Some(b"yy")), ("d/e", None)];
+    let t2 = tree.clone(); let t3 = tree.clone(); let t4 = tree.clone(); let t5 = tree.clone(); let t6 = tree.clone();
+    let scenarios: Vec<Scn> = vec![
+        ("create_dir_all", Box::new(|k| { let (root, st) = faulty(); st.calls.store(0, Ordering::SeqCst); st.countdown.store(k, Ordering::SeqCst);
+            let res = root.join("a/b/c").unwrap().create_dir_all(); let n = st.calls.load(Ordering::SeqCst); st.countdown.store(-1, Ordering::SeqCst);
+            let full = ["a", "a/b", "a/b/c"].iter().all(|p| root.join(p).unwrap().is_dir().unwrap());
+            (n, if res.is_ok() && !full { Some("Ok but not every prefix is a directory".into()) } else { None }) })),
+        ("remove_dir_all", Box::new(move |k| { let (root, st) = faulty(); for (p, c) in &t2 { put(&root, p, *c); } st.calls.store(0, Ordering::SeqCst); st.countdown.store(k, Ordering::SeqCst);
+            let res = root.join("d").unwrap().remove_dir_all(); let n = st.calls.load(Ordering::SeqCst); st.countdown.store(-1, Ordering::SeqCst);
+            (n, if res.is_ok() && root.join("d").unwrap().exists().unwrap() { Some("Ok but the directory still exists".into()) } else { None }) })),
+        ("copy_file", Box::new(|k| { let (root, st) = faulty(); put(&root, "s", Some(b"payload")); st.calls.store(0, Ordering::SeqCst); st.countdown.store(k, Ordering::SeqCst);
+            let res = root.join("s").unwrap().copy_file(&root.join("t").unwrap()); let n = st.calls.load(Ordering::SeqCst); st.countdown.store(-1, Ordering::SeqCst);
+            let ok = root.join("t").unwrap().read_to_string().map(|x| x == "payload").unwrap_or(false) && root.join("s").unwrap().read_to_string().map(|x| x == "payload").unwrap_or(false);
+            (n, if res.is_ok() && !ok { Some("Ok but destination/source do not hold the bytes".into()) } else { None }) })),
+        ("move_file", Box::new(|k| { let (root, st) = faulty(); put(&root, "s", Some(b"payload")); st.calls.store(0, Ordering::SeqCst); st.countdown.store(k, Ordering::SeqCst);
+            let res = root.join("s").unwrap().move_file(&root.join("t").unwrap()); let n = st.calls.load(Ordering::SeqCst); st.countdown.store(-1, Ordering::SeqCst);
+            let ok = root.join("t").unwrap().read_to_string().map(|x| x == "payload").unwrap_or(false) && !root.join("s").unwrap().exists().unwrap();
+            (n, if res.is_ok() && !ok { Some("Ok but destination lacks the bytes or the source remains".into()) } else { None }) })),
+        ("copy_dir", Box::new(move |k| { let (root, st) = faulty(); for (p, c) in &t3 { put(&root, p, *c); } let want: Vec<_> = listing(&root.join("d").unwrap()).into_iter().map(|(p, c)| (p[2..].to_string(), c)).collect();
+            st.calls.store(0, Ordering::SeqCst); st.countdown.store(k, Ordering::SeqCst);
+            let res = root.join("d").unwrap().copy_dir(&root.join("o").unwrap()); let n = st.calls.load(Ordering::SeqCst); st.countdown.store(-1, Ordering::SeqCst);
+            let got: Vec<_> = if root.join("o").unwrap().exists().unwrap() { listing(&root.join("o").unwrap()).into_iter().map(|(p, c)| (p[2..].to_string(), c)).collect() } else { vec![] };
+            (n, if res.is_ok() && got != want { Some(format!("Ok but the copy is {:?}", got.iter().map(|x| &x.0).collect::<Vec<_>>())) } else { None }) })),
+        ("move_dir", Box::new(move |k| { let (root, st) = faulty(); for (p, c) in &t4 { put(&root, p, *c); } let want: Vec<_> = listing(&root.join("d").unwrap()).into_iter().map(|(p, c)| (p[2..].to_string(), c)).collect();
+            st.calls.store(0, Ordering::SeqCst); st.countdown.store(k, Ordering::SeqCst);
+            let res = root.join("d").unwrap().move_dir(&root.join("o").unwrap()); let n = st.calls.load(Ordering::SeqCst); st.countdown.store(-1, Ordering::SeqCst);
+            let got: Vec<_> = if root.join("o").unwrap().exists().unwrap() { listing(&root.join("o").unwrap()).into_iter().map(|(p, c)| (p[2..].to_string(), c)).collect() } else { vec![] };
+            (n, if res.is_ok() && (got != want || root.join("d").unwrap().exists().unwrap()) { Some(format!("Ok but the moved tree is {:?} / source exists {}", got.iter().map(|x| &x.0).collect::<Vec<_>>(), root.join("d").unwrap().exists().unwrap())) } else { None }) })),
+        ("walk_dir", Box::new(move |k| { let (root, st) = faulty(); for (p, c) in &t5 { put(&root, p, *c); } st.calls.store(0, Ordering::SeqCst); st.countdown.store(k, Ordering::SeqCst);
+            let w = root.walk_dir(); let mut oks = 0; let mut errs = 0; if let Ok(w) = w { for e in w { match e { Ok(_) => oks += 1, Err(_) => errs += 1 } } } else { errs += 1; }
+            let n = st.calls.load(Ordering::SeqCst); st.countdown.store(-1, Ordering::SeqCst);
+            (n, if errs == 0 && oks != 5 { Some(format!("walk yielded {} of 5 entries and no error", oks)) } else { None }) })),
+        ("read_to_string", Box::new(|k| { let (root, st) = faulty(); put(&root, "s", Some(b"text")); st.calls.store(0, Ordering::SeqCst); st.countdown.store(k, Ordering::SeqCst);
+            let res = root.join("s").unwrap().read_to_string(); let n = st.calls.load(Ordering::SeqCst); st.countdown.store(-1, Ordering::SeqCst);
+            (n, match res { Ok(x) if x != "text" => Some(format!("Ok({:?})", x)), _ => None }) })),
+        ("altroot.exists+remove_dir_all", Box::new(move |k| { let (root, st) = faulty(); put(&root, "r", None); let alt: VfsPath = AltrootFS::new(root.join("r").unwrap()).into(); for (p, c) in &t6 { put(&alt, p, *c); }
+            st.calls.store(0, Ordering::SeqCst); st.countdown.store(k, Ordering::SeqCst);
+            let e = alt.join("d/x").unwrap().exists(); let res = alt.join("d").unwrap().remove_dir_all(); let n = st.calls.load(Ordering::SeqCst); st.countdown.store(-1, Ordering::SeqCst);
+            let mut bad = None;
+            if let Ok(false) = e { bad = Some("exists() of a present entry reported Ok(false)".to_string()); }
+            if res.is_ok() && alt.join("d").unwrap().exists().unwrap() { bad = Some("remove_dir_all Ok but the directory still exists".into()); }
+            (n, bad) })),
+        ("overlay.upper_faulty", Box::new(|k| { let (up, st) = faulty(); let low: VfsPath = MemoryFS::new().into(); put(&low, "f", Some(b"low")); put(&low, "g", Some(b"g")); put(&low, "d/h", Some(b"h"));
+            let ov: VfsPath = OverlayFS::new(&[up.clone(), low.clone()]).into(); ov.join("g").unwrap().remove_file().unwrap(); let low_before = snapshot(&low);
+            st.calls.store(0, Ordering::SeqCst); st.countdown.store(k, Ordering::SeqCst);
+            let e = ov.join("f").unwrap().exists(); let names = ov.read_dir().map(|it| { let mut v: Vec<String> = it.map(|p| p.filename()).collect(); v.sort(); v });
+            let ap = ov.join("f").unwrap().append_file().map(|mut h| h.write_all(b"+").is_ok()); let rm = ov.join("d/h").unwrap().remove_file(); let mk = ov.join("n").unwrap().create_dir();
+            let n = st.calls.load(Ordering::SeqCst); st.countdown.store(-1, Ordering::SeqCst);
+            let mut bad = None;
+            if let Ok(false) = e { bad = Some("exists(/f) reported Ok(false) for a visible entry".to_string()); }
+            if let Ok(v) = &names { if v.iter().any(|x| x == "g") || !v.iter().any(|x| x == "f") { bad = Some(format!("root listing {:?} (removed entry shown or visible entry missing)", v)); } }
+            if let Ok(true) = ap { if ov.join("f").unwrap().read_to_string().map(|x| x != "low+").unwrap_or(true) { bad = Some("append Ok but content is not low+".into()); } }
+            if rm.is_ok() && ov.join("d/h").unwrap().exists().unwrap() { bad = Some("remove_file Ok but the entry is still visible".into()); }
+            if mk.is_ok() && !ov.join("n").unwrap().is_dir().unwrap() { bad = Some("create_dir Ok but no directory".into()); }
+            if snapshot(&low) != low_before { bad = Some("a lower layer changed".into()); }
+            (n, bad) })),
+        ("overlay.lower_faulty", Box::new(|k| { let up: VfsPath = MemoryFS::new().into(); let (low, st) = faulty(); put(&low, "f", Some(b"low")); put(&low, "d/h", Some(b"h"));
+            let ov: VfsPath = OverlayFS::new(&[up.clone(), low.clone()]).into();
+            st.calls.store(0, Ordering::SeqCst); st.countdown.store(k, Ordering::SeqCst);
+            let e = ov.join("f").unwrap().exists(); let txt = ov.join("f").unwrap().read_to_string(); let names = ov.join("d").unwrap().read_dir().map(|it| it.map(|p| p.filename()).collect::<Vec<_>>());
+            let n = st.calls.load(Ordering::SeqCst); st.countdown.store(-1, Ordering::SeqCst);
+            let mut bad = None;
+            if let Ok(false) = e { bad = Some("exists(/f) reported Ok(false) for a visible entry".to_string()); }
+            if let Ok(t) = txt { if t != "low" { bad = Some(format!("read_to_string Ok({:?})", t)); } }
+            if let Ok(v) = names { if v != vec!["h".to_string()] { bad = Some(format!("listing of /d is {:?}", v)); } }
+            (n, bad) })),
+    ];
+    for (name, scn) in &scenarios {
+        let run = |k: i64| catch_unwind(AssertUnwindSafe(|| scn(k)));
+        let (n, base) = match run(-1) { Ok(x) => x, Err(_) => { r.fail(format!("{} fault-free", name), "panicked".into()); continue; } };
+        if let Some(b) = base { r.fail(format!("{} fault-free", name), b); }
+        for k in 0..n as i64 {
+            r.case();
+            match run(k) { Err(_) => r.fail(format!("{} with call #{} failing", name, k), "panicked".into()),
+                           Ok((_, Some(b))) => r.fail(format!("{} with call #{} failing", name, k), b), Ok((_, None)) => {} }
+        }
+    }
+    r.done()
+}
+
 // ------------------------------------------------------------------------------------------------ copy_dir / move_dir (C11)
 fn oracle_copydir() -> bool {
     let mut r = Report::new("copydir");
@@ -585,6 +701,7 @@ fn main() {
             "union.overlay" => oracle_union(if deep { 3 } else { 2 }),
             "transfer" => oracle_transfer(),
             "copydir" => oracle_copydir(),
+            "faults" => oracle_faults(),
             other => { println!("UNKNOWN {}", other); false }
         };
     }
